@@ -142,4 +142,13 @@ theorem failed_repair_is_not_durable_witness :
     (xorAt (restart cfg (checkFailN 3 exBroken)) 0).1 ≠ (xorAt exS1 0).1 ∧
     (xorAt (restart cfg (checkN 1 exBroken)) 0).1 = (xorAt exS1 0).1 := by decide
 
+/-- an `Add` on the page after the failing check writes the (repaired in memory) leaf: the store is healed without
+    another repair — after a restart `XOR(c)` is the fold over the two stored transactions -/
+theorem add_after_failed_repair_heals_store_witness :
+    let s2 := (add cfg (checkFailN 1 exBroken) exChild {}).1
+    s2.disk.txs = [exRoot, exChild] ∧
+    (xorAt (restart cfg s2) 1).1 = exRoot.ref ^^^ exChild.ref ∧ (xorAt s2 1).1 = exRoot.ref ^^^ exChild.ref ∧
+    -- while a rolled-back Add reloads the damaged leaf into memory
+    (xorAt (add cfg (checkFailN 1 exBroken) exChild { commitFails := true }).1 0).1 ≠ exRoot.ref := by decide
+
 end Nuts.C08.Props
